@@ -31,7 +31,7 @@ TStep ==
   /\ l <= Ends[tr]
   /\ LET t == Trace[l] IN
      /\ CASE t.op = "Connect"    -> Connect(t.a)
-          [] t.op = "Query"      -> Query(t.n, t.retr, t.hard, t.prog)
+          [] t.op = "Query"      -> Query(t.n, t.retr, t.nomax, t.hard, t.prog)
           [] t.op = "Dispatch"   -> DispatchTo(t.a)
           [] t.op = "Gone"       -> GoneAt(t.a)
           [] t.op = "Result"     -> ResultJ(t.a, t.i, t.j, t.e)
